@@ -384,6 +384,19 @@ Definition fd_pwrite (f : fs) (i : N) (off : nat) (data : bytes) : fs * result :
   | _ => (f, RErr EINVAL)
   end.
 
+(* open(2) with O_WRONLY|O_CREAT|O_TRUNC (follows a final symlink): an existing regular file
+   loses its bytes and gets a new mtime, whether or not it had any *)
+Definition fd_truncate (f : fs) (i : N) : fs :=
+  match get f i with
+  | Some {| i_kind := KFile _; i_meta := m |} => put f i {| i_kind := KFile []; i_meta := with_mtime m now_mark |}
+  | _ => f
+  end.
+Definition sys_open_trunc (c : ctx) (f : fs) (p : bytes) (mode : N) : fs * result :=
+  match sys_open_wronly c f p true mode with
+  | (f1, RFd i) => (fd_truncate f1 i, RFd i)
+  | x => x
+  end.
+
 (* unlink(2): no follow; directories are refused *)
 Definition sys_unlink (c : ctx) (f : fs) (p : bytes) : fs * result :=
   match resolve c f p false with
